@@ -25,9 +25,10 @@ TAGS = {
                      "Pyro5.errors.ValueError", "Pyro5.errors.SystemExit", "Pyro5.errors.KeyboardInterrupt", "Pyro5.errors.URI", "Pyro5.errors.Proxy"],
     "errors_missing": ["Pyro5.errors.NoSuchError", "Pyro5.errors.", "Pyro5.errors.naming.Error"],
     "struct_error": ["struct.error"], "exc_wrapper": ["Pyro5.core._ExceptionWrapper"],
-    "bare_builtin_exc": ["ValueError", "KeyError", "ZeroDivisionError", "OSError", "StopIteration"],
+    "bare_builtin_exc": ["ValueError", "KeyError", "ZeroDivisionError", "OSError", "StopIteration", "SyntaxError", "IndentationError"],
     "bare_nonexc": ["dict", "print", "open", "object", "eval", "bytearray"],
-    "builtins_exc": ["builtins.ValueError", "builtins.OSError", "builtins.KeyboardInterrupt"],
+    "builtins_exc": ["builtins.ValueError", "builtins.OSError", "builtins.KeyboardInterrupt", "builtins.SyntaxError", "builtins.TabError",
+                     "builtins.ExceptionGroup", "builtins.BaseExceptionGroup"],
     "builtins_nonexc_class": ["builtins.bytearray", "builtins.object", "builtins.list", "builtins.type", "builtins.memoryview"],
     "builtins_function": ["builtins.eval", "builtins.open", "builtins.print", "builtins.exec", "builtins.compile", "builtins.input"],
     "builtins_dotted_tail": ["builtins.ValueError.mro", "builtins.str.join", "builtins.ValueError.with_traceback"],
@@ -121,10 +122,12 @@ def tagged(tag, flagged, body, tagclass, rng):
         # (no metadata in its state: the first attribute access makes it connect)
         px = {"__class__": "Pyro5.client.Proxy", "state": ["PYRO:obj@localhost:1", [], [], [], "hello", None]}
         if body == "proxy_members":
-            ROTATE[tagclass] = which = (ROTATE.get(tagclass, -1) + 1) % 8
+            ROTATE[tagclass] = which = (ROTATE.get(tagclass, -1) + 1) % 9
             d["args"] = px if which in (0, 4) else ["m"]
             d["attributes"] = px if which in (1, 4) else {}
             d["state"] = px if which in (2, 4) else valid_state.get(tagclass, [])
+            if which == 8:
+                d["args"] = ["m", px]                         # a proxy as the second argument (some constructors unpack theirs)
             if which == 5:
                 d["attributes"] = {"args": px}                # an attribute whose setter converts what it is given
             elif which in (6, 7):
@@ -262,8 +265,9 @@ def run(ctx):
         tags = TAGS[c["tag"]]
         dangerous = c["tag"] in ("foreign_ns", "builtins_nonexc_class", "builtins_function", "bare_nonexc", "sqlite_other", "pyro_internal_other",
                                  "errors_other", "testlocal", "falsy", "nonstring")
-        for j in range(len(tags) if (dangerous and c["flagged"] and c["body"] in ("plain_args", "empty_args", "one_str_arg")
-                                     and c["pos"] in ("top", "in_list", "in_wrapper")) else min(ntags, len(tags))):
+        every = (dangerous and c["flagged"] and c["body"] in ("plain_args", "empty_args", "one_str_arg") and c["pos"] in ("top", "in_list", "in_wrapper")) \
+            or (c["tag"] in ("builtins_exc", "bare_builtin_exc") and c["flagged"] and c["body"] == "proxy_members" and c["pos"] in ("top", "in_list"))
+        for j in range(len(tags) if every else min(ntags, len(tags))):
             jobs.append((c, tags[(i + j) % len(tags)], False))
     for pos in ("top", "in_list", "deep", "in_wrapper", "as_exception_arg"):
         jobs.append(({"tag": "testlocal", "flagged": False, "pos": pos, "body": "minimal"}, "harness.Registered", True))
